@@ -38,6 +38,8 @@ func (m Mix) names() []string {
 
 // Gen produces the transactions of one block.
 type Gen struct {
+	MultiMsg float64 // probability that an actor's transaction carries several messages
+
 	W           *chain.World
 	R           *rand.Rand
 	Mix         Mix
@@ -624,6 +626,21 @@ func (g *Gen) Block() []*chain.TxRecord {
 		}
 		if g.TightLimits > 0 && g.R.Float64() < g.TightLimits {
 			m = g.Tighten(m, ctx)
+		}
+		if g.MultiMsg > 0 && g.R.Float64() < g.MultiMsg {
+			// one transaction carrying two or three messages of the same signer: they succeed or are
+			// rolled back together (a later message failing undoes the earlier ones, including what
+			// they left in per-block transient state)
+			ms := []sdk.Msg{m}
+			for k := 0; k < 1+g.R.Intn(2); k++ {
+				if m2 := g.Op(g.pick(), ac, ctx); m2 != nil {
+					ms = append(ms, m2)
+				}
+			}
+			t := g.W.TxFee(ac, fee, ms...)
+			t.Tag = name + "+"
+			txs = append(txs, t)
+			continue
 		}
 		t := g.W.TxFee(ac, fee, m)
 		t.Tag = name
